@@ -890,11 +890,21 @@ public:
         return promise<T>(*this);
     }
 
+    ///Call the function, capture the returned future and register the callback on it
+    /**
+     * @param fn function which returns future<T>
+     *
+     * @note the callback can be called immediately (the future is already resolved),
+     * in this case the object no longer exists when the operator returns
+     */
     template<typename Factory>
     CXX20_REQUIRES(ReturnsFuture<Factory, T>)
-    future_with_cb &operator << (Factory &&fn) {
+    void operator << (Factory &&fn) {
+        //the future is replaced by the returned one - this drops registration made in the constructor
+        this->_awaiter.store(&awaiter::instance, std::memory_order_relaxed);
         future<T>::operator<<(std::forward<Factory>(fn));
-        return *this;
+        //so register again (or call the callback now)
+        if (!future<T>::subscribe(this)) this->resume();
     }
 
     virtual ~future_with_cb() = default;
